@@ -10,7 +10,8 @@ PROPS = {
              "(runs of 1/63/64/4095/4096/4097/8192/90000 ones, 1/63/511/4096/90000/140000 zeros, periodic patterns and their complements); "
              "(3) length sweep around 64/512/4096/65536/83521/131072 x 6 fills. Each vector is built from a raw vector (all queries: every position and rank "
              "for families 1,3; run/word/block edges +-1 and EVERY rank for family 2; plus the out-of-range set A(.)) and must equal the vectors built by "
-             "FromIterator<bool>, copy_bit_vec and From<SparseVector/RLVector>. A case is non-trivial when it has both set and unset bits; distinct = distinct bit sequences (hashed case keys).",
+             "FromIterator<bool>, copy_bit_vec and From<SparseVector/RLVector> in every answer; raw vectors reached by push/pop histories (pop_bit and pop_int routes that leave stale words behind the length) "
+             "must give the same answers as well. A case is non-trivial when it has both set and unset bits; distinct = distinct bit sequences (hashed case keys).",
         bounds={"quick": "N=12, d=2 (462 words), sweep 984 cases", "thorough": "N=18, d=3 (9723 words) + depth 4 over 8 letters (4096 words), sweep 1116 cases"},
         require_counters={"quick": {"vectors_with_long_superblock(ones)": 1, "vectors_with_long_superblock(zeros)": 1, "vectors_with_long_and_short(ones)": 1},
                           "thorough": {"vectors_with_long_superblock(ones)": 1, "vectors_with_long_superblock(zeros)": 1, "vectors_with_several_long(ones)": 1}},
@@ -52,8 +53,8 @@ PROPS["C02"] = dict(
     driver="c02", builds=["rel", "dbg"], level="exploration",
     rule="E-input: (a) every subset of every universe n <= N; (b) every low-part width 1..=63 (universe 1.5*m*2^w for m in {1,2,3,17,40}) x four layouts (packed at the start, packed at the end incl. n-1, "
          "evenly spread, straddling every bucket boundary 2^w*k-1 / 2^w*k), plus universes usize::MAX, usize::MAX-1, 2^63, 2^63+1 with 1-3 positions; (c) run-structured sets: every word up to depth d over "
-         "28 (gap, run) letters (the select_zero binary search needs > 16 ones); (d) empty vectors up to 2^20 / 2^26 and full vectors up to 4096. Built with try_set; set / extend / copy_bit_vec / From<BitVector> routes "
-         "must give an equal vector with identical bytes. All ten operations at every position and rank (a, c, small d) or at member/bucket edges +-1 and A(.) (b, large d). Non-trivial = has set and unset bits; distinct by hashed case key.",
+         "28 (gap, run) letters (the select_zero binary search needs > 16 ones); (d) empty vectors up to 2^20 / 2^26 and full vectors up to 4096; (e) large clustered sets (tens of thousands of ones in few buckets, so that the high part has long select superblocks). "
+         "Built with try_set; set / extend / copy_bit_vec / From<BitVector> routes must answer every query identically. All ten operations at every position and rank (a, c, small d) or at member/bucket edges +-1 and A(.) (b, large d). Non-trivial = has set and unset bits; distinct by hashed case key.",
     bounds={"quick": "N=10, d=3", "thorough": "N=15, d=4"},
     require_counters={"quick": {"cases_entering_select_zero_binary_search": 100, "width_directed_cases_hitting_the_intended_width": 600},
                       "thorough": {"cases_entering_select_zero_binary_search": 100, "width_directed_cases_hitting_the_intended_width": 600}},
@@ -69,8 +70,9 @@ PROPS["C03"] = dict(
     driver="c03", builds=["rel", "dbg"], level="exploration",
     rule="E-input: (1) every bit sequence of length <= N as a run list; (2) every run list of <= 2 runs (thorough: <= 3) over (gap, length) magnitudes from 1 to 2^63 (1..22 code units), first gap also 0, "
          "trailing zeros in {0, 1, 2^61}, total length capped at usize::MAX; (3) block-shape families: k tiny runs + one big run + k tiny runs (1, 8, 9, many blocks; blocks closed early) and a first block without unset bits "
-         "followed by 2..20 more blocks. Built run by run; per-bit, split-run and copy_bit_vec routes must give an equal vector with identical bytes. All ten operations at run edges, block-sample edges (read from the "
-         "file by the independent codec) +-1 and A(.); run_iter must yield exactly the maximal runs with running offset/rank/rank_zero. Non-trivial = at least one run; distinct by hashed case key.",
+         "followed by 2..20 more blocks, k up to 600 with long tails; (4) lengths at the documented maximum: usize::MAX - slack for slack 0..40 with 1..20 blocks and a final run or trailing zeros up to the very end. "
+         "Built run by run; per-bit, split-run and copy_bit_vec routes must answer identically. All ten operations at run edges, block-sample edges (read from the "
+         "file by the independent codec) +-1, a uniform grid over the length, the midpoints of gaps and runs, and A(.); run_iter must yield exactly the maximal runs with running offset/rank/rank_zero. Non-trivial = at least one run; distinct by hashed case key.",
     bounds={"quick": "N=10; <=2 runs over 8 magnitudes x 3 tails; 450 block shapes", "thorough": "N=13; <=2 runs over 19 magnitudes and <=3 runs over 10 magnitudes x 3 tails; 1500 block shapes"},
     require_counters={"quick": {"vectors_with_9_or_more_blocks": 10, "vectors_longer_than_2^63": 100}, "thorough": {"vectors_with_9_or_more_blocks": 10, "vectors_longer_than_2^63": 100}},
     assumptions=[HOOK_ASSUMPTION, MODEL_ASSUMPTION, "more than ~1300 runs per vector, and run lists longer than 3 with 2^60-scale magnitudes, are not explored"],
@@ -129,9 +131,9 @@ MANIFEST_TEXT["C17"] = dict(engine="E-input", design_ref="DESIGN.md §4 C17",
 
 PROPS["C16"] = dict(
     driver="c16", builds=["rel", "dbg"], level="model_checking",
-    rule="E-hist: breadth-first search over call sequences on the real builders. SparseBuilder: 60 parameter sets (universe in {0,1,2,5,8,70} x capacity 0..4 x set/multiset); calls try_set(i), set(i) (panic caught) for i around next_index, "
+    rule="E-hist: breadth-first search over call sequences on the real builders. SparseBuilder: 60 parameter sets (universe in {0,1,2,5,8,70} x capacity 0..4 x set/multiset) plus huge universes (2^63, usize::MAX-1, usize::MAX) x capacity 1..3, where the constructor itself must succeed; calls try_set(i), set(i) (panic caught) for i around next_index, "
          "the universe end and usize::MAX, extend with fully valid lists and lists whose first element is invalid. RLBuilder: try_set(start, len) with start below/at/above the current length and 2^62, len in {0, 1, 3, 2^20, "
-         "the largest that fits, one more than fits, usize::MAX}, set_len below/at/above the length. After every call: accepted/refused exactly as the reference says; a refused call leaves the Debug rendering byte-identical; "
+         "the largest that fits, one more than fits, usize::MAX}, set_len below/at/above the length. After every call: accepted/refused exactly as the reference says; a refused call leaves every observable (len, next_index, counts, fullness, and the vector a clone converts to) unchanged; "
          "len/next_index/is_full/is_empty/count_ones/count_zeros exact; conversion of a clone succeeds iff allowed and yields exactly the accepted positions / merged runs (also after completing a clone with the smallest admissible indices). "
          "States deduplicated on the builder's Debug rendering; distinct = distinct renderings per BFS.",
     bounds={"quick": "depth 4", "thorough": "depth 6"},
@@ -195,7 +197,8 @@ PROPS["C18"] = dict(
     driver="c18", builds=["rel", "dbg"], level="model_checking",
     rule="E-hist: every sequence of Map(file, ReadOnly|Mutable) / Drop(handle) / Write(handle, first|mid|last element, value) / Read(handle) up to depth d with at most 3 live maps over files of 0, 8, 4088, 4096, 4104, 8192, 65536 and 1 MiB+8 bytes, "
          "a 12-byte file and a missing file; each history is executed from scratch on the real MemoryMap. Oracle after every action from /proc/self/maps: a successful map is 8-aligned, its whole page-rounded range is mapped to that file, readable "
-         "(writable if mutable), as_ref() equals the file content and len() = size/8; missing / non-multiple-of-8 / empty files give Err; after Drop no page of the dropped range is still mapped to the file and other live maps are intact; with no live "
+         "(writable if mutable), as_ref() equals the file content and len() = size/8; missing / non-multiple-of-8 files give Err and leave nothing mapped; an empty file gives Err or a valid empty map; after Drop no page of the dropped range is still mapped to the file and other live maps are intact; "
+         "every map sits between two PROT_NONE guard pages placed by the harness (one is placed first so that the library's mapping lands directly below it) and both guards must survive the drop, so an unmap that is one page too long or too short is seen deterministically; with no live "
          "handle no test file is mapped; a write is visible through every live map of the file and in the file after the map is dropped. A state is a history; all histories are distinct by construction.",
     bounds={"quick": "depth 1..3, 10 files: 12 808 histories", "thorough": "depth 1..4 over 10 files + depth 5 over 7 files: 1 509 086 histories"},
     require_counters={},
@@ -211,7 +214,7 @@ PROPS["C09"] = dict(
     driver="c09", builds=["rel", "dbg", "native"], level="exploration",
     rule="E-input: every bit sequence of length <= N plus 9 multi-block representatives (up to 125 000 bits; long and short superblocks) as BitVector, SparseVector and RLVector - all three compared with the same reference, so they agree with "
          "each other - with the argument set A(n) = {0, 1, n-1, n, n+1, 2n, 2^63, MAX-1, MAX} (plus every in-range value for the small ones) in EVERY argument position of rank, rank_zero (<= len), select, select_zero, select_iter, "
-         "select_zero_iter, predecessor, successor; Iterator::nth / nth_back(k) for k in A(remaining) on every iterator kind after 0, 1 and 2 consumed items (result, exact size hint afterwards, the next items); wavelet matrices over small "
+         "select_zero_iter, predecessor, successor; Iterator::nth / nth_back(k) for k in A(remaining) on every iterator kind after 0, 1 and 2 consumed items from the front and after 1 and 2 items consumed from the back (result, exact size hint afterwards, the next items); wavelet matrices over small "
          "alphabets with A(.) x (present, absent, outside-the-alphabet values incl. u64::MAX) in every position of rank/select/select_iter/inverse_select/predecessor/successor/contains, and WMCore map_down/map_down_with/map_up_with over all "
          "(index, value); constructors with widths {0,1,13,64,65,2^20,MAX}, SparseBuilder::new with ones > universe, RLBuilder::try_set with start+len overflowing. No call may panic. Distinct by hashed structure.",
     bounds={"quick": "N=6; WM scopes (1,6) (2,4) (3,3) (4,2)", "thorough": "N=10; WM scopes (1,10) (2,6) (3,4) (4,3)"},
@@ -227,7 +230,7 @@ PROPS["C10"] = dict(
     rule="E-hist: the complete call tree over {next, nth(0), nth(1), nth(2), nth(MAX)} and, for double-ended iterators, {next_back, nth_back(0|1|2|MAX)} up to depth d; every branch continues on a clone of the iterator (so clone() is exercised at "
          "every node); after every call the returned item and the exact size hint are compared with a VecDeque reference; once an iterator is exhausted every call is tried once more and must return None. Iterators x starting points: "
          "BitVector / SparseVector / RLVector iter, one_iter, zero_iter, run_iter, select_iter(r), select_zero_iter(r), predecessor(v), successor(v) for EVERY r and v; multiset sparse vectors; IntVector iter / into_iter; WaveletMatrix iter, into_iter, "
-         "value_iter(v), select_iter(r, v), predecessor(i, v), successor(i, v) for every argument. Parents: every bit sequence of <= N bits as all three types, word-boundary and multi-block run-length parents (a block ending in padding), "
+         "value_iter(v), select_iter(r, v), predecessor(i, v), successor(i, v) for every argument. Parents: every bit sequence of <= N bits as all three types, word-boundary and multi-block run-length parents (a block ending in padding), LOADED copies (serialize; load) of multi-block parents incl. a 20-block run-length vector whose block starts are spread over several index buckets (shallower trees: depth 4, 3 starting points), "
          "every multiset over universes <= U with <= K values, IntVectors over {0, max} at widths 1/7/64, every vector of the WM scopes. A state is a history (no merging: iterators keep private cursors); all histories are distinct by construction.",
     bounds={"quick": "depth 6 (positioned iterators 4), N=7, U=K=5, WM scopes (1,6) (2,4) (3,3)", "thorough": "depth 8 (positioned 5), N=8, U=K=6, WM scopes (1,7) (2,5) (3,4): 3.8 x 10^9 transitions per build"},
     assumptions=[HOOK_ASSUMPTION, MODEL_ASSUMPTION, "parents beyond the stated sizes are not explored; RunIter's offset()/rank() accessors are checked by C03"],
@@ -240,7 +243,7 @@ MANIFEST_TEXT["C10"] = dict(engine="E-hist", design_ref="DESIGN.md §4 C10",
 PROPS["C15"] = dict(
     driver="c15", builds=["rel", "dbg"], level="exploration",
     rule="E-input: every non-decreasing value list of <= K values over every universe <= U (incl. overfull lists with more values than elements); duplicates with multiplicities {1,2,5,17} at bucket boundaries 2^w*k-1 / 2^w*k / 0 / n-1 "
-         "for universes 64..2^20 (the low width the parameter rule picks); SparseVector::try_from_iter over EVERY sequence (sorted or not) of length <= L over 0..A. Checked: len, count_ones, is_multiset, select / select_iter at every rank and A(.), "
+         "for universes 64..2^20 (the low width the parameter rule picks) and for universes 2^63, usize::MAX-1, usize::MAX with values at both ends; SparseVector::try_from_iter over EVERY sequence (sorted or not) of length <= L over 0..A. Checked: len, count_ones, is_multiset, select / select_iter at every rank and A(.), "
          "get, rank, successor (first occurrence) and predecessor (last occurrence) as full iterators at every position and A(.), one_iter and the bit iterator forward, reversed and at every forward/backward split point; try_from_iter accepts exactly "
          "the non-decreasing sequences, sizes the universe to last+1 and equals the multiset builder's vector. Zero-side queries are not checked (documented as not meaningful for multisets). Non-trivial = has duplicates or is a try_from_iter sequence.",
     bounds={"quick": "U=6, K=7; L=5 over 0..6 (9 331 sequences)", "thorough": "U=9, K=10; L=7 over 0..8"},
@@ -257,7 +260,8 @@ PROPS["C11"] = dict(
     rule="E-input: every bit sequence of length <= N plus representatives (all-zero and all-one vectors at word boundaries, multi-word, multi-block and long-superblock vectors) is built as each of BitVector / SparseVector / RLVector and sent through "
          "EVERY conversion chain of 1..3 conversions: 42 chains by From (consecutive types differ) and 117 chains by copy_bit_vec (any type to any type incl. itself). The result must have the reference length and set positions, be == the structure "
          "the target type's own builder produces from the same bits, and serialize to identical bytes. Builder decompositions: every run list of <= 3 runs of length <= R (gaps 0/1/2) x EVERY composition of each run into adjacent try_set pieces "
-         "(down to bit at a time) x {no set_len, set_len(current length) before every run, set_len(next start) before every run} x tail {0, 2}: the RLVector must be the canonical one. Non-trivial = has set and unset bits / any decomposition.",
+         "(down to bit at a time) x {no set_len, set_len(current length) before every run, set_len(next start) before every run, set_len(current length) before every PIECE} x tail {0, 2}: the RLVector must be the canonical one. "
+         "Huge universes: SparseVector <-> RLVector chains (From and copy_bit_vec) over lengths up to usize::MAX with runs at 2^60-scale positions and runs ending exactly at usize::MAX. Non-trivial = has set and unset bits / any decomposition.",
     bounds={"quick": "N=10, R=4", "thorough": "N=14, R=6"},
     assumptions=[HOOK_ASSUMPTION, MODEL_ASSUMPTION, "BitVector construction routes from a raw vector / bool iterator are compared in C01"],
 )
@@ -287,8 +291,8 @@ PROPS["C19"] = dict(
     rule="E-hist: for every bit sequence of <= N bits and 7 representatives (multi-block, long and short superblocks for ones and zeros, 200 000 bits) the graph of states (enabled subset of {rank, select, select_zero}, built|loaded) under the actions "
          "enable_rank, enable_select, enable_select_zero, enable_pred_succ and serialize;load is explored to a fixpoint (all 16 states, 80 transitions) on the real BitVector. In every state: supports_* report exactly the subset (so loading reports "
          "exactly what was written), the value == a freshly built vector with the same subset enabled and serializes identically, the bits are unchanged, every enabled query equals the reference; enabling twice leaves the value equal; every path that "
-         "reaches the full subset equals the fully enabled original. Composites: SparseVector files at every admissible low width and WaveletMatrix / WMCore files are written by the independent codec with NO support structures in any embedded "
-         "bitvector, and must load, equal the built value and answer all queries. skip_option over [optional, sentinel] for every catalogue value through readers of chunk size 1/3/7/8/9/4095/unbounded must leave the reader exactly at the sentinel; "
+         "reaches the full subset equals the fully enabled original. Composites: SparseVector files at every admissible low width and WaveletMatrix / WMCore files are written by the independent codec with EVERY subset of the support structures in the embedded "
+         "bitvectors (none, each one, all), and must load - also wrapped as Option<...> in front of a sentinel - and answer all queries; with no supports or all supports they must equal the built value. skip_option over [optional, sentinel] for every catalogue value through readers of chunk size 1/3/7/8/9/4095/unbounded must leave the reader exactly at the sentinel; "
          "absent_option writes absent_option_size() elements. Distinct = states + files + (value, chunk) pairs.",
     bounds={"quick": "N=7 (255+7 bitvectors x 16 states), sparse files for all sets <= 6 bits x all widths, WM scopes (1,6) (2,4) (3,3) (4,2)", "thorough": "N=11, sparse <= 10 bits, WM scopes (1,8) (2,5) (3,4) (4,3), extended catalogue"},
     require_counters={"quick": {"sparse_files_at_the_library_width": 10}, "thorough": {"sparse_files_at_the_library_width": 10}},
@@ -306,7 +310,7 @@ PROPS["C07"] = dict(
          "(plus lengths at and around powers of two) is serialized by the library and decoded by the codec: same logical content, reader ends exactly at the end, and every 'must' holds (little-endian whole elements, zero padding, zero unused bits, "
          "stored ones = actual, exactly one bucket per universe slice, w >= 1, 4-bit units with whole runs per 64-unit block, zero padding only in closed blocks and none in the final block, maximal runs, samples per block at minimal width, data width 4, "
          "wavelet-matrix width = bit_len(max), first[v] = first position or len, minimal width of first). Direction 2: files encoded by the codec with every admissible writer choice - all support structures absent, EVERY low width 1..bit_len(n)+1 for "
-         "sparse vectors, every sample width from minimal to 64 for run-length vectors - must load and answer the full query sets (and equal the built value where the document determines the content). Greedy block packing is counted, not required. Distinct by hashed case.",
+         "sparse vectors, every sample width from minimal to 64 for run-length vectors - and every subset of support structures in embedded bitvectors - must load and answer the full query sets (and equal the built value where the document determines the content). Greedy block packing is counted, not required. Distinct by hashed case.",
     bounds={"quick": "N=10 (direction 1), 8 (direction 2); WM scopes (1,8) (2,5) (3,3) (4,2)", "thorough": "N=14 / 11; WM scopes (1,9) (2,6) (3,4) (4,3); all 64 sample widths for every vector"},
     require_counters={"quick": {"direction1_library_written_files": 1000, "direction2_document_written_files": 1000}, "thorough": {"direction1_library_written_files": 1000, "direction2_document_written_files": 1000}},
     assumptions=[HOOK_ASSUMPTION, MODEL_ASSUMPTION, "my reading of SERIALIZATION.md as implemented in spec.rs; rank/select support structures are implementation-dependent per the document and only checked for whole elements"],
